@@ -936,7 +936,7 @@ retry:
 	var bps []BlockParser
 	line, _ := reader.PeekLine()
 	w, pos := util.IndentWidth(line, reader.LineOffset())
-	if w >= len(line) {
+	if pos >= len(line) {
 		pc.SetBlockOffset(-1)
 		pc.SetBlockIndent(-1)
 	} else {
